@@ -21,7 +21,7 @@ from .. import multi
 ID = "C05"
 LEVEL = "exploration"
 RULE = ("the same randomly generated query (providers: multi-variable join/disjunction/negation queries biased towards "
-        "conjunctions of disjunctions over different variables, for_all queries, nested sub-queries, rule trees, flatten queries) is built "
+        "conjunctions of disjunctions over different variables, for_all queries, nested sub-queries, rule trees, flatten queries, feature-interaction queries of eqlmon/ix.py, right-nested alternatives whose last one joins an earlier declared variable, two 30-40 object joins) is built "
         "fresh and evaluated three times under caching enabled and built fresh and evaluated three times under caching disabled; "
         "the results are compared pairwise (first, second, third evaluation) with each other and with the oracle. Non-trivial: the caching-enabled run "
         "took at least one cache hit (IndexedCache.check returned True) and the result is neither empty nor the whole "
